@@ -260,7 +260,19 @@ pub fn run(ctx: &Ctx) -> i32 {
         ctx.nontrivial(2);
         return ctx.finish("replay of one recorded configuration", &[], vec![]);
     }
-    let n = ctx.args.pick(100_000usize, 1_000_000);
+    let n = ctx.args.ex_u64("n", ctx.args.pick(100_000, 1_000_000)) as usize;
+    // a few big blocks (more than 2^14 symbols) with sub-blocks: all-source decode and one lost symbol
+    let big: Vec<Shape> = [(16385usize, 24usize, 4usize, 4usize), (20000, 16, 2, 8), (40000, 12, 3, 2), (56403, 8, 2, 4)]
+        .iter()
+        .map(|&(k, t, nsub, al)| Shape { F: k * t - 5, T: t, Z: 1, N: nsub, Al: al })
+        .chain(std::iter::once(Shape { F: 39999 * 24 - 1, T: 24, Z: 2, N: 3, Al: 8 }))
+        .collect();
+    if ctx.args.ex("n").is_none() {
+        par_for_threads(threads().min(5), big.len(), |i| {
+            run_case(ctx, &big[i], &st);
+            ctx.eval(1);
+        });
+    }
     par_for(n, |i| {
         if ctx.too_many_violations() {
             return;
@@ -306,7 +318,7 @@ pub fn run(ctx: &Ctx) -> i32 {
     ctx.floor("configs_with_TL_ne_TS", st.tl_ne_ts.load(Relaxed), 200);
     ctx.floor("configs_with_Z_gt_1_and_N_gt_1_and_padding", st.all3.load(Relaxed), 100);
     ctx.finish(
-        "valid configurations (F,T,Z,N,Al; Al any value incl. non powers of two) from four strata (general small shapes; up to 255 blocks; up to 200 sub-blocks; symbol sizes up to 65535 with up to T/Al sub-blocks) with position-coded data; Encoder::get_encoded_packets(0) must equal, packet by packet, the list computed from RFC 4.4.1.2 (Partition[Kt,Z], Partition[T/Al,N], sub-symbol concatenation, zero padding of the tail only), calculate_block_offsets must equal the Partition blocks, and Decoder fed those packets must return the object; partition() compared with the wide-integer Partition on random pairs. non-trivial = Z>1 or N>1 or padding>0; distinct by shape",
+        "valid configurations (F,T,Z,N,Al; Al any value incl. non powers of two) from four strata plus five big blocks (16 385 ... 56 403 symbols with 2-4 sub-blocks) (general small shapes; up to 255 blocks; up to 200 sub-blocks; symbol sizes up to 65535 with up to T/Al sub-blocks) with position-coded data; Encoder::get_encoded_packets(0) must equal, packet by packet, the list computed from RFC 4.4.1.2 (Partition[Kt,Z], Partition[T/Al,N], sub-symbol concatenation, zero padding of the tail only), calculate_block_offsets must equal the Partition blocks, and Decoder fed those packets must return the object; partition() compared with the wide-integer Partition on random pairs. non-trivial = Z>1 or N>1 or padding>0; distinct by shape",
         &["layout oracle written from RFC 6330 4.4.1.2 in the harness"],
         vec![],
     )
